@@ -3998,6 +3998,42 @@ def run_fields_case(ctx, kind, variant, vals, enc_pairs, desc, sample=None, dec_
     return None
 
 
+# ------------------------------------------------------------------------------------------------
+# history / object-identity probes (harness/histories.py): every PDU kind once as constructor and once as parser
+def ENTRY_POINTS():
+    import histories as H
+
+    def view(q):
+        b, e = call(q.as_bits) if hasattr(q, "as_bits") else (None, None)
+        return {"as_bits": e or H.canon(b), "fields": H.canon(q)}
+
+    ser = lambda o: o.as_bits()  # noqa: E731
+    eps = []
+    for k in kinds():
+        if not k.variants:
+            continue
+
+        def args(rng, k=k):
+            vi = rng.randrange(len(k.variants))
+            v = k.variants[vi]
+            vals = v.random_vals(rng)
+            if v.fix:
+                vals = v.fix(vals)
+            return (vi, vals)
+
+        def build(vi, vals, k=k):
+            return k.variants[vi].build(vals)
+
+        def word(rng, k=k, args=args, build=build):
+            if k.bit_seeds is not None and rng.random() < 0.3:
+                return (bitarray(k.bit_seeds(rng)),)
+            return (bitarray(build(*args(rng)).as_bits()),)
+
+        eps.append(H.EP(f"{k.name}.build", build, args, kind="build", serialise=ser, canon=view, group=k.name, probes=("repeat", "argument-kept", "result-edit", "twin", "interleave", "held")))
+        eps.append(H.EP(f"{k.name}.from_bits", k.from_bits, word, kind="parse", serialise=ser, canon=view, group=k.name, domain=f"bits{k.length}"))
+    return eps
+
+
 def run(ctx):
     ctx.rule = (
         "per PDU kind and variant (opcode / format): corpus of repaired defects first; then a type-directed sweep — every field in turn at "
@@ -4298,6 +4334,10 @@ def run(ctx):
         ctx.hold.verify(ctx)
     ctx.hold.verify(ctx)
     alias_elements_final(ctx, held_elements)
+    # ---- generic history / object-identity probes
+    import histories
+
+    histories.run(ctx, ENTRY_POINTS)
     # ---- ambient interpreter / process state
     base, base_el = ambient_probe(ctx, ks, ctx.seed)
     ambient_children(ctx, ctx.seed, digest([base, base_el]), {n: digest(o) for n, o in zip(sorted(ks), base)})
@@ -4377,6 +4417,10 @@ def replay(obj):
     if not inp:
         print("no failing input recorded (proof / correspondence broke):", json.dumps(obj.get("no_longer_checks") or obj.get("correspondence_differences"))[:2000])
         return 1
+    if str(f.get("kind", "")).startswith("history:"):
+        import histories
+
+        return histories.replay(inp, ENTRY_POINTS)
     r = ReplayCtx()
     if inp.get("kind") == "element":
         line = f"elem {inp['element']} {inp['value']}"
